@@ -24,6 +24,13 @@ Open Scope N_scope.
 
 (* ---- strings ------------------------------------------------------------------------------ *)
 Definition s2l (s : string) : str := map N_of_ascii (list_ascii_of_string s).
+(* the literals the parsers compare with, as byte lists (s2l is for witnesses in proof files only:
+   the extracted functions must not pull in Coq's String module) *)
+Definition s_true : str := [116; 114; 117; 101].              (* "true" *)
+Definition s_false : str := [102; 97; 108; 115; 101].         (* "false" *)
+Definition s_NAN : str := [78; 65; 78].                       (* "NAN" *)
+Definition s_INF : str := [73; 78; 70].                       (* "INF" *)
+Definition s_INFINITY : str := [73; 78; 70; 73; 78; 73; 84; 89].  (* "INFINITY" *)
 
 Definition is_digit (c : N) : bool := (48 <=? c) && (c <=? 57).
 (* char::is_whitespace restricted to ASCII: U+0009..U+000D and U+0020 *)
@@ -115,7 +122,7 @@ Definition upper (c : N) : N := if (97 <=? c) && (c <=? 122) then c - 32 else c.
 (* parse_inf_nan: "nan", "inf", "infinity", ASCII case-insensitive, whole input *)
 Definition is_inf_nan (s : str) : bool :=
   let u := map upper s in
-  str_eqb u (s2l "NAN") || str_eqb u (s2l "INF") || str_eqb u (s2l "INFINITY").
+  str_eqb u s_NAN || str_eqb u s_INF || str_eqb u s_INFINITY.
 
 (* <f64 as FromStr> accepts: [+|-] (number | inf | infinity | nan), non-empty after the sign *)
 Definition is_float_lexeme (s : str) : bool :=
@@ -129,8 +136,8 @@ Definition is_float_lexeme (s : str) : bool :=
   end.
 
 Definition parse_to_value (v : str) : value :=
-  if str_eqb v (s2l "true") then VBool true
-  else if str_eqb v (s2l "false") then VBool false
+  if str_eqb v s_true then VBool true
+  else if str_eqb v s_false then VBool false
   else match parse_i64 v with
        | Some z => VInt z
        | None => if is_float_lexeme v then VFloat v else VStr v
